@@ -67,9 +67,25 @@ def oracle_c17(line, impl, model_kv):
         if f.get("b") != f.get("e"): return "builder bytes differ from the instruction encoder's"
     return None
 
+# ---------------------------------------------------------------------------- C06
+
+def oracle_spec_only(line, impl, model_kv):
+    """the driver printed the property's specification verdict as spec=…; generic comparison handles it"""
+    return None
+
 # ---------------------------------------------------------------------------- registry
 
 PROPS = {
+    "C06": dict(
+        suites=["verify"], oracle=None, level="proof",
+        nontrivial=lambda line, impl: impl in ("ok", "err") and len(line.split()[1]) % 16 == 0 and len(line.split()[1]) >= 16,
+        rule="suite verify: every (opcode, register byte) pair in first/middle/penultimate/last position; every jump/call opcode x every "
+             "displacement in [-n-3, n+3] for n <= 6, with wide loads at the target; call kinds 0..15; le/be immediates; xadd immediates; "
+             "every opcode as the last instruction and after a wide load; length classes 0, 1..17, 8*999999, 8*10^6, 8*(10^6+1); random soups "
+             "and mutated valid programs. Oracle: the declarative WellFormed predicate evaluated by the Lean driver on the same bytes "
+             "(programs up to 4096 slots). Non-trivial: distinct byte string whose length is a positive multiple of 8.",
+        trusted=["decide +kernel over the 256-opcode table (kernel evaluation, no extra axiom)"],
+    ),
     "C17": dict(
         suites=["codec"], oracle=oracle_c17, level="proof",
         nontrivial=lambda line, impl: impl not in ("bad-op",),
